@@ -196,6 +196,8 @@ func c02Gen(c *Ctx) {
 	c02InputTable(c)
 	c02EnumClosed(c)
 	c02ListNullVsEmpty(c)
+	c02ArgPath(c)
+	parseWidth(c)
 }
 
 // errorFlow classifies what happens to the error result of call in fn:
@@ -780,5 +782,53 @@ func c02ListNullVsEmpty(c *Ctx) {
 	}
 	if n < 20 {
 		c.R.Fail("list-null-vs-empty examined only %d list unmarshalers", n)
+	}
+}
+
+// c02ArgPath: an uncoercible argument is reported at the argument's path: every raw argument is coerced under
+// WithPathContext(NewPathWithField(<the key it was read with>)) (same analysis as the argument part of C01/path-ctx), and a list
+// input's elements under NewPathWithIndex of the element's own index on the context the list function received (not on the
+// context of the previous element).
+func c02ArgPath(c *Ctx) {
+	c.R.Rule("arg-path", "every raw argument is coerced under a path context named after the key it was read with; list elements are coerced under WithPathContext(<the function's own ctx>, NewPathWithIndex(i))", 40)
+	total := 0
+	for _, g := range c.Gen {
+		for _, fn := range c.genFuncs(g) {
+			if fn.Parent() != nil {
+				continue
+			}
+			name := fn.Name()
+			if (strings.HasPrefix(name, "field_") || strings.HasPrefix(name, "dir_")) && strings.Contains(name, "_args") {
+				c.argsPath(g, fn, &total)
+			}
+			// list unmarshalers
+			if len(an.CallsIn(fn, func(_ ssa.CallInstruction, ci an.CalleeInfo) bool { return ci.FullName() == pkgGraphql+".CoerceList" })) == 0 {
+				continue
+			}
+			for _, call := range an.CallsIn(fn, func(_ ssa.CallInstruction, ci an.CalleeInfo) bool { return ci.FullName() == pkgGraphql+".WithPathContext" }) {
+				total++
+				vc, _ := call.(*ssa.Call)
+				bad := ""
+				// the parent context must not be the result of this very call in an earlier iteration
+				for _, d := range an.Defs(call.Common().Args[0]) {
+					if vc != nil && d == ssa.Value(vc) {
+						bad = "the element's path context is derived from the previous element's context: the error path of element k accumulates the indices 0..k"
+					}
+				}
+				isIdx := false
+				for _, d := range an.Defs(call.Common().Args[1]) {
+					if cc, ok := d.(*ssa.Call); ok && an.CalleeOf(cc).FullName() == pkgGraphql+".NewPathWithIndex" {
+						isIdx = true
+					}
+				}
+				if !isIdx && bad == "" {
+					bad = "the list element is not coerced under NewPathWithIndex"
+				}
+				c.R.Check(bad == "", "gen:"+g.Name+"/"+name+"/element-path", c.ipos(call), "WithPathContext(ctx, NewPathWithIndex(i)) on the function's own context", bad)
+			}
+		}
+	}
+	if total < 40 {
+		c.R.Fail("arg-path examined only %d sites", total)
 	}
 }
